@@ -106,6 +106,44 @@ func c18(p *model.Prog, r *report.Result) {
 	r.Rule("C18.R4", "in readArray/readStrictArray the loop bounded by the peer-chosen 32-bit count passes, on every iteration, a call of amf0.read (or ReadStringWithoutType) whose error result leaves the loop; amf0.read starts with a remaining-length test that fails on an exhausted input")
 	readStr := p.MethodObj("pkg/rtmp", "amf0", "ReadStringWithoutType")
 	readObj := p.MethodObj("pkg/rtmp", "amf0", "read")
+	// an element reader: amf0.read / ReadStringWithoutType, or a helper of the package in which
+	// every path to a success return (nil error) passes such a call (the key/value read extracted
+	// into a function)
+	var isReader func(ci ssa.CallInstruction, d int) bool
+	isReader = func(ci ssa.CallInstruction, d int) bool {
+		o := model.CalleeObj(ci.Common())
+		if model.SameFunc(o, readObj) || model.SameFunc(o, readStr) {
+			return true
+		}
+		ce := ci.Common().StaticCallee()
+		if ce == nil || ce.Blocks == nil || !model.IsLal(ce) || d >= 2 {
+			return false
+		}
+		res := ce.Signature.Results()
+		if res.Len() == 0 || res.At(res.Len()-1).Type().String() != "error" {
+			return false
+		}
+		hasReader := false
+		for _, c2 := range model.AllCalls(ce) {
+			if isReader(c2, d+1) {
+				hasReader = true
+			}
+		}
+		if !hasReader {
+			return false
+		}
+		miss := model.PathQuery{
+			Stop: func(in ssa.Instruction) bool { c2, ok := in.(ssa.CallInstruction); return ok && isReader(c2, d+1) },
+			Target: func(in ssa.Instruction) bool {
+				ret, ok := in.(*ssa.Return)
+				if !ok {
+					return false
+				}
+				rv := model.ReturnValues(ret)
+				return len(rv) > 0 && model.IsNilConst(rv[len(rv)-1])
+			}}.Find(ce)
+		return miss == nil
+	}
 	for _, name := range []string{"readArray", "readStrictArray"} {
 		fn := p.Method("pkg/rtmp", "amf0", name)
 		n := 0
@@ -120,11 +158,7 @@ func c18(p *model.Prog, r *report.Result) {
 				found := model.PathQuery{FromBlock: s,
 					Stop: func(in ssa.Instruction) bool {
 						ci, ok := in.(ssa.CallInstruction)
-						if !ok {
-							return false
-						}
-						o := model.CalleeObj(ci.Common())
-						return model.SameFunc(o, readObj) || model.SameFunc(o, readStr)
+						return ok && isReader(ci, 0)
 					},
 					Target: func(in ssa.Instruction) bool { return in.Block() == l.Header }}.Find(fn)
 				if found != nil {
@@ -132,11 +166,14 @@ func c18(p *model.Prog, r *report.Result) {
 				}
 			}
 			// error edges of the element readers do not return to the loop
-			for _, ci := range model.CallsTo(fn, readObj, readStr) {
-				if !l.Body[ci.Block()] {
+			for _, ci := range model.AllCalls(fn) {
+				if !l.Body[ci.Block()] || !isReader(ci, 0) {
 					continue
 				}
-				call := ci.(*ssa.Call)
+				call, isCall := ci.(*ssa.Call)
+				if !isCall {
+					continue
+				}
 				edges := errNonNilEdges(call)
 				if len(edges) == 0 {
 					bad = true
@@ -153,13 +190,68 @@ func c18(p *model.Prog, r *report.Result) {
 			r.Bad("C18.R4", fkey(fn, "count-loop", "floor"), p.Pos(fn.Pos()), "expected exactly one loop")
 		}
 	}
-	// amf0.read fails on an exhausted input: its first branch tests len(b)-index < 1 and returns an error
+	// amf0.read fails on an exhausted input: its first branch separates "no byte left"
+	// (len(b) - index <= 0, in whatever form it is written) from the rest and returns an error for it
 	okFirst := false
 	if iff, ok := readFn.Blocks[0].Instrs[len(readFn.Blocks[0].Instrs)-1].(*ssa.If); ok {
-		if _, k, op, right, ok := constCmp(iff.Cond); ok && right && ((op == token.LSS && k == 1) || (op == token.LEQ && k == 0)) {
-			if ret, isRet := iff.Block().Succs[0].Instrs[len(iff.Block().Succs[0].Instrs)-1].(*ssa.Return); isRet {
-				rv := model.ReturnValues(ret)
-				okFirst = len(rv) == 3 && !model.IsNilConst(rv[2])
+		c, pol := model.StripNot(iff.Cond, true)
+		if bo, isB := c.(*ssa.BinOp); isB {
+			tx, kx := linTerms(bo.X)
+			ty, ky := linTerms(bo.Y)
+			// d = X - Y as coefficient of (len(b) - index) plus a constant
+			coef, k, shape := 0, kx-ky, true
+			for v, cnt := range tx {
+				ty[v] -= cnt
+			}
+			for v, cnt := range ty {
+				cnt = -cnt
+				if cnt == 0 {
+					continue
+				}
+				switch {
+				case isLenOf(v, readFn.Params[1]):
+					coef += cnt
+				case v == ssa.Value(readFn.Params[2]):
+					coef -= cnt
+				default:
+					shape = false
+				}
+			}
+			// both len(b) and index must occur with opposite unit coefficients
+			if shape && (coef == 2 || coef == -2) {
+				unit := int64(coef / 2)
+				at := func(delta int64) bool { // value of the condition when len(b)-index == delta
+					v := unit*delta + k
+					var res bool
+					switch bo.Op {
+					case token.LSS:
+						res = v < 0
+					case token.LEQ:
+						res = v <= 0
+					case token.GTR:
+						res = v > 0
+					case token.GEQ:
+						res = v >= 0
+					case token.EQL:
+						res = v == 0
+					default:
+						return false
+					}
+					return res == pol
+				}
+				errSucc := -1
+				if at(0) && !at(1) {
+					errSucc = 0
+				} else if !at(0) && at(1) {
+					errSucc = 1
+				}
+				if errSucc >= 0 {
+					sb := iff.Block().Succs[errSucc]
+					if ret, isRet := sb.Instrs[len(sb.Instrs)-1].(*ssa.Return); isRet {
+						rv := model.ReturnValues(ret)
+						okFirst = len(rv) == 3 && !model.IsNilConst(rv[2])
+					}
+				}
 			}
 		}
 	}
@@ -212,4 +304,14 @@ func c18(p *model.Prog, r *report.Result) {
 	}
 	r.Check(okWs, "C18.R5", fkey(ws, "prefix", "add"), p.Pos(ws.Pos()), "prefix string then the original bytes", "the metadata bytes behind the added @setDataFrame prefix are not the unmodified input")
 	c18r6(p, r)
+}
+
+// isLenOf: v is len(<param>).
+func isLenOf(v ssa.Value, prm *ssa.Parameter) bool {
+	c, ok := v.(*ssa.Call)
+	if !ok {
+		return false
+	}
+	b, isB := c.Call.Value.(*ssa.Builtin)
+	return isB && b.Name() == "len" && c.Call.Args[0] == ssa.Value(prm)
 }
